@@ -782,3 +782,195 @@ func init() {
 		return info
 	}
 }
+
+// ---- MIX: one generator that combines the clauses (interactions beyond the per-property families) ----
+
+func (g *Gen) mixDoc() Node {
+	rows := make([]any, g.R.Intn(11))
+	for j := range rows {
+		nested := make([]any, g.R.Intn(4))
+		for k := range nested {
+			nested[k] = TObj(Node{"p": TInt(g.R.Intn(6))})
+		}
+		nn := TNull()
+		if g.R.Intn(3) != 0 {
+			nn = TInt(g.R.Intn(5))
+		}
+		rows[j] = TObj(Node{"a": TInt(g.R.Intn(9)), "c": TInt(g.R.Intn(4)), "g": TInt(g.R.Intn(3)), "s": TStr(g.Pick("x", "y", "X", "10", "9", "").(string)), "n": nn, "k": TArr(nested)})
+	}
+	if len(rows) > 2 && g.R.Intn(2) == 0 {
+		rows[len(rows)-1] = rows[0] // a duplicate row
+	}
+	urows := make([]any, g.R.Intn(5))
+	for j := range urows {
+		urows[j] = TObj(Node{"c": TInt(g.R.Intn(9))})
+	}
+	return TObj(Node{"t": TArr(rows), "u": TArr(urows)})
+}
+
+// MixQuery builds a statement that combines source kinds (table / CTE / derived table / UNION), WHERE,
+// projection or GROUP BY + aggregates + HAVING, DISTINCT, ORDER BY on output columns and LIMIT / OFFSET.
+func (g *Gen) MixQuery() Node {
+	cols := []ColSpec{{"a", "num"}, {"c", "num"}, {"s", "str"}, {"n", "nnum"}}
+	pre := []string{}
+	q := BaseQ()
+	col := func(name string) Node { return Col(append(append([]string{}, pre...), name)...) }
+	switch g.R.Intn(6) {
+	case 0: // CTE with a filter
+		inner := With(BaseQ(), "where", CmpE(g.Str(cmpOps), Col("a"), Lit(TInt(g.R.Intn(9)))))
+		q["with"] = []any{Node{"name": "w", "q": inner}}
+		q["from"] = Table("", "w")
+	case 1: // aliased derived table
+		inner := With(BaseQ(), "where", CmpE(g.Str(cmpOps), Col("c"), Lit(TInt(g.R.Intn(4)))))
+		q["from"] = Derived(inner, "x")
+		pre = []string{"x"}
+	case 2: // UNION [ALL] of two projections, with LIMIT
+		l := With(BaseQ(), "sel", []any{Item(Col("a"), ""), Item(Col("g"), "")}, "where", CmpE(g.Str(cmpOps), Col("a"), Lit(TInt(g.R.Intn(9)))))
+		r := With(BaseQ(), "sel", []any{Item(Col("c"), "a"), Item(Col("g"), "")})
+		if g.R.Intn(3) == 0 {
+			l["distinct"] = true
+		}
+		u := Node{"k": "union", "l": l, "r": r, "all": g.R.Intn(2) == 0, "limit": -1, "offset": -1}
+		if g.R.Intn(2) == 0 {
+			u["limit"] = g.R.Intn(8)
+			if g.R.Intn(2) == 0 {
+				u["offset"] = g.R.Intn(5)
+			}
+		}
+		return u
+	}
+	qcols := cols
+	if len(pre) > 0 {
+		qcols = nil // predicates below are written with qualified columns by hand
+	}
+	if g.R.Intn(3) != 0 {
+		if qcols != nil {
+			q["where"] = g.Pred(qcols, g.R.Intn(3))
+		} else {
+			q["where"] = CmpE(g.Str(cmpOps), col("a"), Lit(TInt(g.R.Intn(9))))
+		}
+	}
+	out := []string{} // scalar output columns usable as ORDER BY keys
+	nullable := map[string]bool{}
+	if g.R.Intn(3) == 0 && len(pre) == 0 {
+		// GROUP BY
+		gcols := []string{"g", "s", "c"}
+		g.R.Shuffle(3, func(i, j int) { gcols[i], gcols[j] = gcols[j], gcols[i] })
+		gcols = gcols[:1+g.R.Intn(2)]
+		group, sel := []any{}, []any{}
+		for _, c := range gcols {
+			group = append(group, c)
+			sel = append(sel, Item(Col(c), ""))
+			out = append(out, c)
+		}
+		names := []string{"p", "q", "r"}
+		for x := 0; x < 1+g.R.Intn(3); x++ {
+			f := g.Pick("count", "sum", "min", "max").(string)
+			c := g.Pick("a", "c", "n").(string)
+			if f == "count" {
+				c = ""
+			}
+			sel = append(sel, AggItem(f, c, names[x]))
+			out = append(out, names[x])
+			if c == "n" {
+				nullable[names[x]] = true
+			}
+		}
+		q["group"], q["sel"] = group, sel
+		if g.R.Intn(3) == 0 {
+			q["having"] = CmpE(g.Str(cmpOps), Agg("count"), Lit(TInt(g.R.Intn(4))))
+		}
+	} else {
+		sel := []any{}
+		for x := 0; x <= g.R.Intn(4); x++ {
+			switch g.R.Intn(7) {
+			case 0:
+				if len(pre) == 0 {
+					sel = append(sel, Star())
+				}
+			case 1:
+				c := g.Pick("a", "c", "s", "g").(string)
+				sel = append(sel, Item(col(c), ""))
+				out = append(out, c)
+			case 2:
+				sel = append(sel, Item(col("n"), "nn"))
+				out = append(out, "nn")
+				nullable["nn"] = true
+			case 3:
+				sel = append(sel, Item(Bin(g.Pick("+", "-", "*").(string), col("a"), Lit(TInt(1+g.R.Intn(3)))), "e"))
+				out = append(out, "e")
+			case 4:
+				sel = append(sel, Item(CaseE([]any{Node{"c": CmpE(">", col("a"), Lit(TInt(g.R.Intn(9)))), "v": col("s")}}, Lit(TStr("low"))), "cs"))
+				out = append(out, "cs")
+			case 5:
+				if len(pre) == 0 {
+					sub := With(BaseQ(), "from", Table("", "k"), "sel", []any{Item(Col("p"), "")}, "where", CmpE(g.Str(cmpOps), Col("p"), Lit(TInt(g.R.Intn(6)))))
+					sel = append(sel, Item(Node{"k": "sub", "q": sub}, "sq"))
+				}
+			default:
+				sel = append(sel, Item(Node{"k": "fn", "f": "concat", "args": []any{col("s"), Lit(TStr("-")), col("g")}}, "cc"))
+				out = append(out, "cc")
+			}
+		}
+		if len(sel) == 0 {
+			sel = append(sel, Item(col("a"), ""))
+			out = append(out, "a")
+		}
+		q["sel"] = sel
+		if g.R.Intn(4) == 0 {
+			q["distinct"] = true
+		}
+	}
+	// ORDER BY on output columns; a nullable key only alone (the statement fixes NULLs last for a single key)
+	if len(out) > 0 && g.R.Intn(2) == 0 {
+		g.R.Shuffle(len(out), func(i, j int) { out[i], out[j] = out[j], out[i] })
+		order := []any{}
+		seen := map[string]bool{}
+		for _, k := range out {
+			if seen[k] {
+				continue
+			}
+			seen[k] = true
+			if nullable[k] {
+				if len(order) == 0 {
+					order = append(order, Node{"key": []any{k}, "asc": g.R.Intn(2) == 0})
+				}
+				break
+			}
+			order = append(order, Node{"key": []any{k}, "asc": g.R.Intn(2) == 0})
+			if len(order) >= 3 {
+				break
+			}
+		}
+		q["order"] = order
+	}
+	switch g.R.Intn(4) {
+	case 0:
+		q["limit"] = g.R.Intn(8)
+	case 1:
+		q["limit"], q["offset"] = g.R.Intn(8), g.R.Intn(6)
+		if g.R.Intn(2) == 0 {
+			q["limstyle"] = "comma"
+		}
+	}
+	return q
+}
+
+func init() {
+	Retrace["MIX"] = engineRetrace
+	TraceGen["MIX"] = func(seed int64, n int, tier string, w io.Writer) TraceInfo {
+		g := NewGen(seed ^ 0x5eed)
+		info := TraceInfo{}
+		for i := 0; i < n; i++ {
+			doc := g.mixDoc()
+			q := g.MixQuery()
+			ev, out := RecordEngine(w, q, doc, Style{}, nil)
+			info.Queries++
+			info.Events += ev
+			if len(info.Samples) < 3 {
+				info.Samples = append(info.Samples, out.SQL)
+			}
+		}
+		return info
+	}
+}
